@@ -18,6 +18,7 @@ import GeoProofs.Lemmas.MONOInit
 import GeoProofs.Lemmas.MONOSweepC
 import GeoProofs.Lemmas.MONOFuelD
 import GeoProofs.Lemmas.MONOAtPoint
+import GeoProofs.Lemmas.MONOChain
 import GeoProofs.Props.C19
 import Mathlib.Tactic.NormNum
 
@@ -433,6 +434,42 @@ theorem monotone_next_point_contract (ps : List Poly) :
     · intro o ho
       obtain ⟨l, hl, e⟩ := io.out o ho
       rw [hl]; simp [e]
+
+/-- the first `next_point` on the L shape: the two segments starting at `(0,2)` -/
+example : (MonoBuild.nextPoint 1000 (MonoBuild.initState [lShape])).map (fun r => (r.1.incoming, r.1.outgoing, r.2)) =
+    some ([], [0, 5], some ⟨0, 2⟩) := by decide +kernel
+
+open Geo.MonoBuild Geo.Proofs.MONO in
+/-- [T] the chain operations of the builder keep a chain lexicographically increasing under explicit conditions on the
+chain's last coordinates, and `finish_with` of two increasing chains is a `wellFormed` piece:
+`from_segment_pair(pt, r, _)` needs `pt < r` (given by `monotone_next_point_contract`: the segment starts at `pt`);
+`push(p)` needs tip `< p`; `fix_top(rt)` and `swap_at_top(pt)` need the coordinate *before* the tip to lie before the new
+coordinate. NOT proved: that the builder only ever pushes onto chains whose tip satisfies these conditions — i.e. that
+every emitted piece is `wellFormed`. That is an ownership invariant (no chain index is held at the same time by two of: the
+`chain_idx` of a segment that has started and not ended, a registered `help`); the condition is decided on the
+implementation's output of every generated case by the clause `piece-chains-not-lexicographically-increasing`, and the
+model's own pieces were well formed on all 400 000 generated inputs of an offline run, arbitrary vertex sequences
+included. -/
+theorem monotone_chain_ops_keep_order :
+    (∀ pt r : Pt, lexLt pt r = true → lexSorted [pt, r] = true) ∧
+    (∀ (c : List Pt) (p : Pt), lexSorted c = true → (∀ t, c.getLast? = some t → lexLt t p = true) →
+      lexSorted (c ++ [p]) = true) ∧
+    (∀ (c c' : List Pt) (rt : Pt), fixTop c rt = some c' → lexSorted c = true →
+      (∀ t, c.dropLast.getLast? = some t → lexLt t rt = true) → lexSorted c' = true) ∧
+    (∀ (c s n0 n1 : List Pt) (pt : Pt), swapAtTop c pt = some (s, n0, n1) → lexSorted c = true →
+      (∀ t, c.dropLast.getLast? = some t → lexLt t pt = true) →
+      lexSorted s = true ∧ lexSorted n0 = true ∧ lexSorted n1 = true ∧
+        n0.getLast? = some pt ∧ n1.getLast? = some pt) ∧
+    (∀ (a b : List Pt) (m : MonoPoly), finishWith a b = some m → lexSorted a = true → lexSorted b = true →
+      2 ≤ a.length → 2 ≤ b.length → wellFormed m = true) :=
+  ⟨fun pt r h => by simp [lexSorted, h], lexSorted_append,
+   fun _ _ _ h hs hb => fixTop_sorted h hs hb,
+   fun _ _ _ _ _ h hs hb => swapAtTop_sorted h hs hb,
+   fun _ _ _ h ha hb la lb => finishWith_wellFormed h ha hb la lb⟩
+
+/-- the split vertex `(2,2)` above a chain `(0,0),(1,0),(4,1)` whose tip `(4,1)` is the right end of the segment below -/
+example : MonoBuild.swapAtTop [⟨0,0⟩, ⟨1,0⟩, ⟨4,1⟩] ⟨2,2⟩ =
+    some ([⟨1,0⟩, ⟨4,1⟩], [⟨1,0⟩, ⟨2,2⟩], [⟨0,0⟩, ⟨1,0⟩, ⟨2,2⟩]) := by decide +kernel
 
 /-- the pieces of the model as closed rings (`MonoPoly::into_polygon`) -/
 def monoRings (ps : List Poly) : List (List Pt) :=
